@@ -74,6 +74,8 @@ func (e *wireEnc) state(c *CNode) {
 		e.state(c.Sub[0])
 	case "lc":
 		e.u64(e.val("lcversion", 1))
+	case "json":
+		e.u64(e.val("jsonversion", 1))
 	case "map", "tuple", "point":
 		for _, s := range c.Sub {
 			e.state(s)
@@ -84,7 +86,7 @@ func (e *wireEnc) state(c *CNode) {
 func (e *wireEnc) scalarRows(t *TNode, rows [][]byte) {
 	for _, r := range rows {
 		switch t.Kind {
-		case "str":
+		case "str", "json":
 			e.uvar(e.val("strlen", uint64(len(r))))
 			e.buf = append(e.buf, r...)
 		case "uuid":
@@ -98,7 +100,7 @@ func (e *wireEnc) scalarRows(t *TNode, rows [][]byte) {
 func (e *wireEnc) col(c *CNode) {
 	t := c.T
 	switch t.Kind {
-	case "fixed", "str", "uuid":
+	case "fixed", "str", "uuid", "json":
 		e.scalarRows(t, c.Rows)
 	case "bool":
 		for _, b := range c.Bools {
@@ -273,6 +275,12 @@ func colFromSx(t *TNode, n *sx) (*CNode, error) {
 		c.Rows = hexList(n.list[2:])
 	case "uuid", "str":
 		c.Rows = hexList(n.list[1:])
+	case "json":
+		// (V 1 (s rows…))
+		if tag != "V" || len(n.list) != 3 || len(n.list[2].list) < 1 {
+			return nil, bad
+		}
+		c.Rows = hexList(n.list[2].list[1:])
 	case "bool":
 		if len(n.list) != 2 {
 			return nil, bad
